@@ -34,9 +34,15 @@ Dom(d) ==
     [] d.t = "S" -> StrVals
     [] d.t = "R" -> RestValsE
     [] d.t = "SS" -> {<<<<>>>>, <<<<97>>>>, <<<<107, 61, 118>>, <<>>, Rep(255, 66)>>}
+    \* (every assigned EDNS option code / SvcParamKey and some unassigned ones, alone, with an empty and a one-byte value:
+    \* a parser may treat a particular code specially)
     [] d.t = "TLV" -> {<<>>, <<<<0, <<>>>>>>, <<<<65535, <<1, 2>>>>, <<3, <<>>>>, <<3, <<9>>>>>>, <<<<10, Ramp(300)>>>>}
+                      \cup {<<<<c, v>>>> : c \in (0 .. 21) \cup {26946, 65001, 65534}, v \in {<<>>, <<7>>}}
     [] d.t = "TLVI" -> {<<>>, <<<<0, <<>>>>>>, <<<<1, <<2, 104, 50>>>>, <<3, <<1, 187>>>>, <<65535, <<>>>>>>}
-    [] d.t = "NW" -> {<<>>, <<<<0, <<64>>>>>>, <<<<0, <<1>>>>, <<1, <<0, 2>>>>, <<255, Rep(32, 255)>>>>}
+                       \cup {<<<<c, v>>>> : c \in (0 .. 9) \cup {65280, 65534}, v \in {<<>>, <<7>>}}
+    \* (bitmaps that end in a zero octet or are all zero are not canonical but are accepted on the wire)
+    [] d.t = "NW" -> {<<>>, <<<<0, <<64>>>>>>, <<<<0, <<1>>>>, <<1, <<0, 2>>>>, <<255, Rep(32, 255)>>>>,
+                      <<<<0, <<64, 0>>>>>>, <<<<0, <<64>>>>, <<2, <<0>>>>>>, <<<<1, <<0, 0, 0>>>>>>}
 
 Default(d) ==
   CASE d.t = "F" -> Ramp(d.n)
